@@ -523,6 +523,8 @@ pub fn boundary(idx: usize, seed: u64, w: &mut dyn Write, thorough: bool) -> Opt
                 RawGBal { native: vec![], cw20: vec![(RawAddr::Invalid, 5)], nfts: vec![] },
                 RawGBal { native: vec![], cw20: vec![(va(&t), 0)], nfts: vec![] },
                 RawGBal { native: vec![], cw20: vec![(va(&t), 5), (va(&t), 6)], nfts: vec![] },
+                RawGBal { native: vec![], cw20: vec![(va(&t), 5), (va(&c), 6), (va(&t), 7)], nfts: vec![] },
+                RawGBal { native: natives(&[(5, JUNO_DENOM), (6, "uatom"), (7, "uosmo"), (8, "uatom")]), cw20: vec![], nfts: vec![] },
                 RawGBal { native: vec![], cw20: vec![], nfts: vec![(RawAddr::Invalid, "t000".into())] },
                 RawGBal { native: vec![], cw20: vec![], nfts: vec![(va(&c), "t000".into()), (va(&c), "t000".into())] },
                 RawGBal { native: natives(&[(1, JUNO_DENOM)]), cw20: vec![(va(&t), 1)], nfts: vec![(va(&c), "t000".into()), (va(&c), "t001".into()), (va(&c), "t000".into())] },
@@ -645,6 +647,21 @@ pub fn boundary(idx: usize, seed: u64, w: &mut dyn Write, thorough: bool) -> Opt
                 g.probe(&Op::R { sender: "alice".into(), msg: RMsg::Rem { nft: va(&colls[0]) } });
                 g.probe(&Op::R { sender: "alice".into(), msg: RMsg::Upd { nft: va(&colls[0]), payout: None, bps: Some(200) } });
             }
+            // a payout-only update restarts the cooldown like any other modification
+            g.step(&Op::R { sender: DEPLOYER.into(), msg: RMsg::Upd { nft: va(&colls[0]), payout: Some(va(PAYOUTS[1])), bps: None } });
+            g.battery_queries();
+            for dh in [0u64, 1, 98, 1, 1] {
+                if dh > 0 {
+                    g.step(&Op::ADV { d_ns: 6_000_000_000, d_height: dh });
+                }
+                g.probe(&Op::R { sender: DEPLOYER.into(), msg: RMsg::Upd { nft: va(&colls[0]), payout: None, bps: Some(150) } });
+                g.probe(&Op::R { sender: DEPLOYER.into(), msg: RMsg::Upd { nft: va(&colls[0]), payout: Some(va("alice")), bps: None } });
+                g.probe(&Op::R { sender: DEPLOYER.into(), msg: RMsg::Rem { nft: va(&colls[0]) } });
+            }
+            // … and so does an update that changes nothing
+            g.step(&Op::R { sender: DEPLOYER.into(), msg: RMsg::Upd { nft: va(&colls[0]), payout: None, bps: None } });
+            g.probe(&Op::R { sender: DEPLOYER.into(), msg: RMsg::Rem { nft: va(&colls[0]) } });
+            g.step(&Op::ADV { d_ns: 6_000_000_000, d_height: 100 });
             // hand-over: the old admin loses the right, the new one gains it
             g.step(&Op::AD { sender: DEPLOYER.into(), contract: colls[0].clone(), new_admin: Some("bobby".into()) });
             g.probe(&Op::R { sender: DEPLOYER.into(), msg: RMsg::Upd { nft: va(&colls[0]), payout: None, bps: Some(200) } });
